@@ -87,14 +87,17 @@ def _base_key(tr, item):
             str(getattr(item, "name", "?")))
 
 
+_MISSING = object()
+
+
 class Instrument:
     """installs / removes the wrappers"""
 
-    def __init__(self, tr, order):
-        self.tr, self.order, self.undo = tr, order, []
+    def __init__(self, tr, order, unsorted=False):
+        self.tr, self.order, self.undo, self.unsorted = tr, order, [], unsorted
 
     def patch(self, obj, name, new):
-        old = obj.__dict__[name] if isinstance(obj, type) else getattr(obj, name)
+        old = obj.__dict__[name] if isinstance(obj, type) else getattr(obj, name, _MISSING)
         self.undo.append((obj, name, old))
         setattr(obj, name, new)
 
@@ -118,6 +121,11 @@ class Instrument:
             tr.forced = [tr.rel(p) for p in res]
             return res
         self.patch(fp, "find_all_files", forced)
+        if self.unsorted:
+            # Project.__init__ iterates sorted(find_all_files(settings)) (the only use of the name in that
+            # module): a module-level `sorted` that keeps the order lets the pipeline be driven through
+            # every enumeration, which is what Out/Project.v idents_enum quantifies over
+            self.patch(fp, "sorted", lambda it, **kw: list(it))
 
         # ---- the spy
         orig_get = sf.NameSelector.get_name
@@ -302,16 +310,19 @@ class Instrument:
 
     def __exit__(self, *a):
         for obj, name, old in reversed(self.undo):
-            setattr(obj, name, old)
+            if old is _MISSING:
+                delattr(obj, name)
+            else:
+                setattr(obj, name, old)
 
 
-def traced_run(files, order, options=None):
+def traced_run(files, order, options=None, unsorted=False):
     """-> dict(err, enum, ents {key: (dir, name)}, final {key: ident}, segs {(kind,k,file): [keys]},
     sets {k: [keys]}, seq [(kind,k)] (the phases in the order they were first seen), unknown [labels])"""
     with F.Work(files) as w:
         tr = Trace(w.root)
         tr.enum, tr.forced = [], []
-        with Instrument(tr, order):
+        with Instrument(tr, order, unsorted):
             data, out, err = F.full_run_inprocess(w.root, options or {})
     # stable entity keys: base key + occurrence number in order of first request
     occ, key_of = {}, {}
@@ -333,7 +344,7 @@ def traced_run(files, order, options=None):
             segs.setdefault((ph[1], fkey), []).append(key_of[k])
         else:
             sets.setdefault(ph[1], []).append(key_of[k])
-    return {"err": err, "log": out, "enum": tr.enum, "forced": tr.forced, "ents": ents, "final": final, "segs": segs, "sets": sets,
+    return {"err": err, "log": out, "enum": tr.enum, "forced": tr.forced, "unsorted": bool(unsorted), "ents": ents, "final": final, "segs": segs, "sets": sets,
             "seq": seq, "unknown": sorted(set(unknown))}
 
 
@@ -420,12 +431,15 @@ def subprocess_runs(files, specs, timeout=300):
 
 
 def trace_project(files, order0, perms, options):
-    """baseline traced run + one traced run per permutation (worker-process entry point)"""
+    """the real code with the set handed over in order0 and in every given permutation of it, then the same
+    permutations with the sort of Project.__init__ neutralised (worker-process entry point)"""
     runs = [traced_run(files, order0, options)]
     if runs[0]["err"]:
         return runs
     for p in perms:
         runs.append(traced_run(files, [order0[i] for i in p], options))
+    for p in perms:
+        runs.append(traced_run(files, [order0[i] for i in p], options, unsorted=True))
     for r in runs:
         r.pop("log", None)
     return runs
@@ -453,7 +467,6 @@ def enumeration_order(root, seed):
 
 TILDE = re.compile(r"~\d+")
 USES_ITEM = re.compile(r"^\s*<li class=\"list-inline-item\"><a href='[^']*'>[^<]*</a></li>\s*$")
-SVG_BLOCK = re.compile(r"<svg id=\"[^\"]*InheritedByGraph\".*?</svg>", re.S)
 
 
 def _lines(b):
@@ -522,33 +535,24 @@ def canon_modules_json(data):
         return data
 
 
-def canon_graph(data):
-    try:
-        return SVG_BLOCK.sub("<svg InheritedByGraph/>", data.decode("utf8")).encode()
-    except UnicodeDecodeError:
-        return data
-
-
 SEARCH_DB = "search/search_database.json"
 
 
 def apply_canon(tree, kinds):
-    """the tree with exactly the freedom the given findings allow removed"""
-    numbering = "file-order-anchors" in kinds or "toposort-id-order" in kinds
+    """the tree with exactly the freedom the given OPEN findings allow removed
+    (toposort-id-order: which twin module is `m`, which `m~2`; uses-set-order: order of "Uses" items)"""
+    numbering = "toposort-id-order" in kinds
     items = sorted(tree.items())
     if numbering:
         items = strip_numbers(items)
     out = []
     for p, d in items:
-        if p == SEARCH_DB and ("file-order-search-db" in kinds or "uses-set-order" in kinds or numbering):
-            d = canon_search_db(d, "file-order-search-db" in kinds or numbering, "uses-set-order" in kinds)
-        if p == "modules.json" and ("file-order-modules-json" in kinds or numbering):
+        if p == SEARCH_DB and ("uses-set-order" in kinds or numbering):
+            d = canon_search_db(d, numbering, "uses-set-order" in kinds)
+        if p == "modules.json" and numbering:
             d = canon_modules_json(d)
-        if p.endswith(".html"):
-            if "uses-set-order" in kinds:
-                d = canon_uses(d)
-            if "inheritedby-children-order" in kinds:
-                d = canon_graph(d)
+        if p.endswith(".html") and "uses-set-order" in kinds:
+            d = canon_uses(d)
         out.append((p, d))
     return sort_lines(out) if numbering else sorted(out)
 
